@@ -149,6 +149,8 @@ def rule_e(ctx):
 
 
 def run(ctx):
+    from .. import fixtures
+    ctx.guarded("C18.FX", lambda c: fixtures.run(c, ['effects', 'loops']))
     ctx.guarded("C18.e", rule_e)
     ctx.guarded("C18.a", rule_a)
     ctx.guarded("C18.b", rule_b)
